@@ -2,14 +2,15 @@
    send_dep_req_recv_dep_res, Target.exchange / send_dep_res_recv_dep_req, and the air
    with a fault script.  Definitions only.
 
-   The model is of the tree with the four committed repairs (b836295, 7efe465, 0d645cb, 2786f8b).  NOT repaired
-   (pinned by tests/test_dep.py::test_exchange_retransmission_invalid_response): request_retransmission
-   rejects a retransmitted ACK, so a corrupted ACK response during initiator chaining is not recovered.
-   Repairs modelled:
+   The model is of the repaired code: the committed repairs b836295, 7efe465, 0d645cb, 2786f8b and
+   fixes/c04-nak-ack-retransmit-chained.diff:
      - Target.activate: miu = lr - 3 - [did] - [nad]
      - Initiator ATN carries DID/NAD like the other supervisory PDUs
      - Target answers a repeated RTOX request by retransmission unless it is itself waiting for it
      - Target.exchange(None) returns None when released before the first information PDU
+     - request_retransmission accepts a retransmitted ACK when the pending request was a chained information PDU
+       (an ACK answered to a NAK for a last information PDU stays "unrecoverable NFC-DEP transmission error",
+       as tests/test_dep.py::test_exchange_retransmission_invalid_response demands)
 
    Conventions: bytes are list Z; time is counted in units of the initiator's RWT (the
    harness runs conversations with RWT = 1/16 s of virtual time, so that all deadline
@@ -441,24 +442,28 @@ Fixpoint req_atn (n : nat) (ic : icfg) (tc : tcfg) (rwt deadline : Z) (w : world
       end
   end.
 
-(* request_retransmission(n_retry_nak, rwt, deadline) *)
-Fixpoint req_nak (n : nat) (ic : icfg) (tc : tcfg) (p : Z) (rwt deadline : Z) (w : world) : res pdu * world :=
+(* request_retransmission(n_retry_nak, rwt, deadline, chained): a retransmitted ACK is accepted only when the
+   pending request was a chained information PDU *)
+Fixpoint req_nak (n : nat) (ic : icfg) (tc : tcfg) (p : Z) (chained : bool) (rwt deadline : Z) (w : world) : res pdu * world :=
   match n with
   | O => (Err ProtocolError, w)
   | S n' =>
       let timeout := Z.min rwt (deadline - w_now w) in
       if timeout <=? 0 then (Err TimeoutError, w) else
       match srr1 ic tc (PDepReq (i_dep ic F_NAK p [])) timeout w with
-      | (Err _, w1) => req_nak n' ic tc p rwt deadline w1
+      | (Err _, w1) => req_nak n' ic tc p chained rwt deadline w1
       | (Ok (PDepRes d), w1) =>
           if fmt d =? F_RTOX then (Err ProtocolError, w1)
-          else if negb ((fmt d =? F_INF) || (fmt d =? F_MORE)) then (Err ProtocolError, w1)   (* also for a retransmitted ACK *)
+          else if negb ((fmt d =? F_INF) || (fmt d =? F_MORE) || (chained && (fmt d =? F_ACK))) then (Err ProtocolError, w1)
           else (Ok (PDepRes d), w1)
       | (Ok _, w1) => (Crash AttributeErr, w1)
       | (Crash x, w1) => (Crash x, w1)
       | (Hang, w1) => (Hang, w1)
       end
   end.
+
+(* chained = req.pfb.fmt == DEP_REQ.MoreInformation *)
+Definition is_chained (req : pdu) : bool := match req with PDepReq d => fmt d =? F_MORE | _ => false end.
 
 (* the while True loop of send_dep_req_recv_dep_res *)
 Fixpoint srr_loop (fuel : nat) (ic : icfg) (tc : tcfg) (p : Z) (req : pdu) (rwt deadline : Z) (w : world)
@@ -477,7 +482,7 @@ Fixpoint srr_loop (fuel : nat) (ic : icfg) (tc : tcfg) (p : Z) (req : pdu) (rwt 
           | (Crash x, w2) => (Crash x, w2)
           | (Hang, w2) => (Hang, w2)
           end
-      | (Err TransmissionError, w1) => req_nak 2 ic tc p rwt deadline w1
+      | (Err TransmissionError, w1) => req_nak 2 ic tc p (is_chained req) rwt deadline w1
       | (Err e, w1) => (Err e, w1)
       | (Crash x, w1) => (Crash x, w1)
       | (Hang, w1) => (Hang, w1)
